@@ -87,7 +87,10 @@ func adversarial(sizes []int) []advCase {
 		out = append(out, advCase{"fan-out under inline fragments and directives", n, sb.String()})
 		// a pair of fragment chains compared first under fields of two different object types
 		// (mutually exclusive parents) and then under one type, in both orders, without and with a cycle
-		for _, variant := range []struct{ name, head string; cyclic bool }{
+		for _, variant := range []struct {
+			name, head string
+			cyclic     bool
+		}{
 			{"fragment pairs: exclusive parents first", "{i{... on Q{c: q{...X0}} ... on R{c: q{...Y0}}} q{d: q{...X0} d: q{...Y0}}}", false},
 			{"fragment pairs: one parent first", "{q{d: q{...X0} d: q{...Y0}} i{... on Q{c: q{...X0}} ... on R{c: q{...Y0}}}}", false},
 			{"fragment pairs with a cycle: exclusive parents first", "{i{... on Q{c: q{...X0}} ... on R{c: q{...Y0}}} q{d: q{...X0} d: q{...Y0}}}", true},
